@@ -66,9 +66,20 @@ MustBeIdentical(rows, fx, a, b) == fx = 1 \/ IntOnlyBetween(rows, a, b)
 \* level: which kernels do not return the portable result there, and whose value they return instead.
 \* (Every call may run every kernel: which kernels a call really reaches depends on encoder decisions the property
 \* leaves free - the model over-approximates, R1.)
+\* A table entry is WELL TYPED when the symbol it selects is an implementation of the row's own kernel (the portable
+\* `<kern>_c` or one of its SIMD versions); "?" is a function the harness cannot name.  An entry that selects an
+\* implementation of a DIFFERENT kernel (a copy/paste slip in a dispatch table) does not return this kernel's portable
+\* result: as far as twins are concerned it behaves like a deviant implementation.
+ImplSuffixes == {"_c", "_sse", "_sse2", "_sse4_1", "_avx2"}
+ImplsOf(kern) == {kern \o sfx : sfx \in ImplSuffixes}
+WellTypedEntry(row, lv) == row.impl[lv + 1] \in ImplsOf(row.kern) \cup {"?"}
+WellTyped(rows) == \A i \in 1..Len(rows) : \A lv \in 0..(Len(rows[i].impl) - 1) : WellTypedEntry(rows[i], lv)
+
 NonExact(rows, lv, dv) ==
   {<<rows[i].kern, rows[i].impl[lv + 1]>> :
-      i \in {j \in 1..Len(rows) : Class(rows[j].kern, rows[j].fx) = "flt" \/ rows[j].impl[lv + 1] \in dv}}
+      i \in {j \in 1..Len(rows) : \/ Class(rows[j].kern, rows[j].fx) = "flt"
+                                    \/ rows[j].impl[lv + 1] \in dv
+                                    \/ ~WellTypedEntry(rows[j], lv)}}
 
 \* an encoder/decoder state is the sequence of (call, signature under which its kernels ran) so far; outputs:
 \*   data  - packet bytes / PCM: a function of the state (calls and kernel results)
